@@ -29,6 +29,7 @@ class Report:
         self.seed = seed
         self.t0 = time.time()
         self.obligations = []   # dicts: rule, key, status, detail, loc
+        self.floors = {}        # anchor -> minimum number of instances the rule needs (counts holds what was found)
         self.notes = []
         self.counts = {}
         self.clauses = []
@@ -67,6 +68,7 @@ class Report:
     def floor(self, rule, what, n, minimum):
         """non-vacuity: a rule that matched fewer instances than the floor fails closed"""
         self.counts["%s:%s" % (rule, what)] = n
+        self.floors["%s:%s" % (rule, what)] = minimum
         if n < minimum:
             self.violation(rule, "anchor-missing:%s" % what,
                            "rule anchor '%s' matched %d instance(s), needs >= %d: the mechanism this clause is anchored on "
@@ -120,6 +122,7 @@ class Report:
                 "functions_analysed": self.fns_analysed,
                 "rule_instances": rules,
                 "counts": self.counts,
+                "anchor_floors": self.floors,
                 "samples": samples,
                 "notes": self.notes[:50],
                 "exhaustive": True,
